@@ -120,6 +120,12 @@ func verifyFunc(prog *ssa.Program, fn *ssa.Function, ctr *Contract, all map[stri
 			return e
 		}
 	}
+	if ctr.NoMapRange {
+		mapRangeObligation(e, fn, name)
+		if len(ctr.Requires)+len(ctr.Ensures)+len(ctr.CallAsserts)+len(ctr.Loops)+len(ctr.Traverses)+len(ctr.Resets) == 0 && !ctr.NoPanic {
+			return e
+		}
+	}
 	st0 := &State{heaps: map[string]string{}}
 	for _, p := range fn.Params {
 		srt := e.sc.sortOf(p.Type())
@@ -634,4 +640,95 @@ func autoRangeInvariants(fn *ssa.Function, tr Traverse, h types.Type, except []s
 		}
 	}
 	return out
+}
+
+// mapRangeObligation implements `nomaprange`: what the function builds depends
+// on the order of its loops, so none of them may follow Go's randomised map
+// iteration order (the keys-then-sort idiom excepted). Decided on the SSA of the
+// body and of its function literals; needs no symbolic execution.
+func mapRangeObligation(e *Engine, fn *ssa.Function, name string) {
+	found := ""
+	var scan func(g *ssa.Function)
+	scan = func(g *ssa.Function) {
+		for _, b := range g.Blocks {
+			for _, ins := range b.Instrs {
+				if r, ok := ins.(*ssa.Range); ok {
+					if _, isMap := r.X.Type().Underlying().(*types.Map); isMap && found == "" && !onlyCollectsKeys(r) {
+						found = g.Prog.Fset.Position(r.Pos()).String()
+					}
+				}
+			}
+		}
+		for _, a := range g.AnonFuncs {
+			scan(a)
+		}
+	}
+	scan(fn)
+	prop := "true"
+	if found != "" {
+		prop = "false"
+	}
+	e.oblige("order", name+"/order:no-map-range", "", "true", prop)
+}
+
+// onlyCollectsKeys: the loop over map range r does nothing but append to slices
+// (the keys-then-sort idiom): its body has no call except the append builtin,
+// no map update and no store except into the argument array of an append.
+func onlyCollectsKeys(r *ssa.Range) bool {
+	var next *ssa.Next
+	if r.Referrers() != nil {
+		for _, u := range *r.Referrers() {
+			if n, ok := u.(*ssa.Next); ok {
+				next = n
+			}
+		}
+	}
+	if next == nil {
+		return false
+	}
+	hdr := next.Block()
+	reaches := func(from *ssa.BasicBlock) bool {
+		seen := map[*ssa.BasicBlock]bool{}
+		work := []*ssa.BasicBlock{from}
+		for len(work) > 0 {
+			b := work[len(work)-1]
+			work = work[:len(work)-1]
+			for _, s := range b.Succs {
+				if s == hdr {
+					return true
+				}
+				if !seen[s] {
+					seen[s] = true
+					work = append(work, s)
+				}
+			}
+		}
+		return false
+	}
+	for _, b := range hdr.Parent().Blocks {
+		if b != hdr && !(hdr.Dominates(b) && reaches(b)) {
+			continue
+		}
+		for _, ins := range b.Instrs {
+			switch x := ins.(type) {
+			case *ssa.Call:
+				if bi, ok := x.Call.Value.(*ssa.Builtin); !ok || (bi.Name() != "append" && bi.Name() != "len") {
+					return false
+				}
+			case *ssa.MapUpdate, *ssa.Go, *ssa.Defer, *ssa.Send, *ssa.Return:
+				return false
+			case *ssa.Store:
+				ok := false
+				if ia, isIA := x.Addr.(*ssa.IndexAddr); isIA {
+					if a, isA := ia.X.(*ssa.Alloc); isA && a.Comment == "varargs" {
+						ok = true
+					}
+				}
+				if !ok {
+					return false
+				}
+			}
+		}
+	}
+	return true
 }
